@@ -32,6 +32,18 @@ TABLE = {
     "C01": [_mk("B01", "operator precedence, associativity, parentheses, kind matrix and metadata constants against a reference evaluator written from the property text",
                 "21x21 operand pairs x 12 operators; 1500 random expression strings (depth <= 4) per seed; 15 fixed logic / metadata cases",
                 lambda repo, seed: adapters.run_expr_battery(repo, seed=seed or 1, count=1500))],
+    "C03": [_mk("B03", "field / pointer-scalar writes across numeric classes, container reads and writes (missing keys, variable keys, pointer and value containers), calls with mixed-class arguments: host state against the property text",
+                "12 target kinds x 7 sources; 20 container cases; 3 call shapes; fixed values",
+                lambda repo, seed: adapters.run_inject_battery(repo))],
+    "C08": [_mk("B08", "random sequences of full build / incremental build / removal on a builder and on a pool against a reference model (existence, count, salience, description, sort-model order, versions)",
+                "150 builder sequences x 12 operations and 76 pool sequences x 10 operations over 6 rule names per seed",
+                lambda repo, seed: adapters.run_merge_battery(repo, seed=seed or 1, count=150))],
+    "C16": [_mk("B16", "random pool management sequences (full, incremental, removal, clear) against a reference model; queries and executions on three overlapping requests",
+                "76 pool sequences x 10 operations per seed",
+                lambda repo, seed: adapters.run_merge_battery(repo, seed=(seed or 1) + 100, count=150))],
+    "C20": [_mk("B20", "one faulty construct on a known line (17 fault classes x 5 enclosing contexts + 10 return-operand faults): every cited line is the construct's 1-based start line",
+                "fixed table",
+                lambda repo, seed: adapters.run_position_battery(repo))],
 }
 
 
